@@ -2,8 +2,10 @@ package main
 
 // C19 — template providers: layered definitions, isolated views, cache-transparent.
 //
-// Generates file sets on a memfs (helpers/, layouts/<name>/, views/<name>/; nested directories,
-// overlapping definition names, non-matching extensions, missing directories, a few bad files),
+// Generates file sets on a memfs (helpers/, layouts/<name>/, views/<name>/ by the packages' default
+// patterns; nested and hidden directories, overlapping definition names, extensions of several
+// shapes and look-alike file names, missing directories, bad and unreadable files, directories
+// that can not be listed, bodies that call a function of the provider's FuncMap),
 // runs request sequences (Base / Layout / View / Execute of an earlier result) on both providers,
 // cached and uncached, and emits (a) Coq cases (file set + requests + observed answers) for the
 // model comparison L1, (b) L2 oracles: reference built with the standard library directly,
@@ -13,11 +15,13 @@ package main
 import (
 	"bytes"
 	"encoding/json"
+	"errors"
 	"fmt"
 	htemplate "html/template"
 	"io"
 	"os"
 	"os/exec"
+	"regexp"
 	"sort"
 	"strconv"
 	"strings"
@@ -27,7 +31,9 @@ import (
 
 	"github.com/goatcms/goatcore/filesystem"
 	"github.com/goatcms/goatcore/filesystem/filespace/memfs"
+	"github.com/goatcms/goatcore/goathtml"
 	"github.com/goatcms/goatcore/goathtml/ghprovider"
+	"github.com/goatcms/goatcore/goattext"
 	"github.com/goatcms/goatcore/goattext/gtprovider"
 )
 
@@ -43,24 +49,30 @@ const c19Root = "baseTemplate"
 type c19Def struct {
 	Name string `json:"n"`
 	ID   int    `json:"id"`
+	Fn   bool   `json:"fn,omitempty"` // the body calls the function "fn" of the provider's FuncMap (renders "")
 }
 
 type c19Node struct {
 	Name     string     `json:"name"`
 	IsDir    bool       `json:"dir,omitempty"`
 	Children []*c19Node `json:"ch,omitempty"`
-	Bad      string     `json:"bad,omitempty"` // "", "empty", "syntax"
-	Defs     []c19Def   `json:"defs,omitempty"`
+	// file: "", "empty", "syntax", "unreadable" (ReadFile reports an error; the content is well formed)
+	// directory: "", "unlistable" (ReadDir reports an error)
+	Bad  string   `json:"bad,omitempty"`
+	Defs []c19Def `json:"defs,omitempty"`
+	Pad  int      `json:"pad,omitempty"` // file: a template comment of this many bytes in front (large file)
 }
 
 type c19Dir struct {
 	Name     string     `json:"name"`
 	Children []*c19Node `json:"ch"`
+	Bad      string     `json:"bad,omitempty"` // "", "unlistable"
 }
 
 type c19FS struct {
 	Ext     string   `json:"ext"`
-	Helpers *c19Dir  `json:"helpers"` // nil: directory missing
+	Funcs   bool     `json:"funcs,omitempty"` // the provider is built with a FuncMap {"fn"}; bodies may call it
+	Helpers *c19Dir  `json:"helpers"`         // nil: directory missing
 	Layouts []c19Dir `json:"layouts"`
 	Views   []c19Dir `json:"views"`
 }
@@ -73,24 +85,41 @@ func (n *c19Node) content() string {
 		return `{{define "a"}}M0{{end}}{{define`
 	}
 	var parts []string
+	if n.Pad > 0 {
+		// a comment leaves no trace in the parsed template; a reader that truncates the file does
+		parts = append(parts, "{{/*"+strings.Repeat("p", n.Pad)+"*/}}")
+	}
 	for _, d := range n.Defs {
+		body := "M" + strconv.Itoa(d.ID)
+		if d.Fn {
+			body += "{{fn}}"
+		}
 		if d.Name == c19Root {
-			parts = append(parts, "M"+strconv.Itoa(d.ID))
+			parts = append(parts, body)
 		} else {
-			parts = append(parts, fmt.Sprintf("{{define %q}}M%d{{end}}", d.Name, d.ID))
+			parts = append(parts, fmt.Sprintf("{{define %q}}%s{{end}}", d.Name, body))
 		}
 	}
-	if len(parts) == 0 {
-		return "\n" // a file without definitions (not empty: an empty file is an error)
+	if len(n.Defs) == 0 {
+		parts = append(parts, "\n") // a file without definitions (not empty: an empty file is an error)
 	}
 	return strings.Join(parts, "")
 }
 
+// the FuncMap of a file set with Funcs: one function that renders nothing, so that a body
+// "M7{{fn}}" still renders its marker - provided the provider registered the function before it
+// parsed the file (otherwise the file does not parse at all).
+func c19Fn() string { return "" }
+
+var c19FnCall = regexp.MustCompile(`\{\{fn[^}]*\}\}`)
+
 type c19Gen struct {
-	rng    *RNG
-	nextID int
-	ext    string
-	errPct int
+	rng      *RNG
+	nextID   int
+	ext      string
+	errPct   int
+	funcs    bool
+	maxDepth int
 }
 
 var c19DefPool = []string{"a", "b", "c", "hdr", "ftr", c19Root, "x.y", "content"}
@@ -104,12 +133,18 @@ var c19ReqViews = []string{"v", "w", "u", "v", "w", "ghost", "c", "b:c"}
 func (g *c19Gen) file(name string) *c19Node {
 	n := &c19Node{Name: name}
 	if g.rng.Chance(g.errPct) {
-		if g.rng.Bool() {
+		switch g.rng.Intn(3) {
+		case 0:
 			n.Bad = "empty"
-		} else {
+			return n
+		case 1:
 			n.Bad = "syntax"
+			return n
 		}
-		return n
+		n.Bad = "unreadable" // well-formed content that ReadFile refuses to hand out
+	}
+	if g.rng.Chance(1) {
+		n.Pad = 70000 // larger than any usual buffer size
 	}
 	k := g.rng.Intn(4)
 	used := map[string]bool{}
@@ -121,7 +156,7 @@ func (g *c19Gen) file(name string) *c19Node {
 		}
 		used[nm] = true
 		g.nextID++
-		n.Defs = append(n.Defs, c19Def{nm, g.nextID})
+		n.Defs = append(n.Defs, c19Def{Name: nm, ID: g.nextID, Fn: g.funcs && g.rng.Chance(35)})
 	}
 	return n
 }
@@ -138,15 +173,25 @@ func (g *c19Gen) children(depth int) []*c19Node {
 		case r < 62:
 			n = g.file(stems[g.rng.Intn(len(stems))] + g.ext)
 		case r < 78:
-			alts := []string{"n.txt", "a" + g.ext + ".bak", "x" + g.ext[1:], g.ext[1:], "readme"}
+			// look-alikes of a template file name: the extension in the middle, without its first
+			// character, alone, in the other case, followed by one more character
+			bare := strings.TrimPrefix(g.ext, ".")
+			alts := []string{"n.txt", "a" + g.ext + ".bak", "x" + bare, bare, "readme",
+				c19SwapCase("a" + g.ext), "a" + g.ext + "x", "." + bare + "a"}
 			n = g.file(alts[g.rng.Intn(len(alts))])
 		default:
-			if depth >= 2 {
+			if depth >= g.maxDepth {
 				n = g.file("q" + g.ext)
 			} else {
-				dn := []string{"sub", "inc", "d" + g.ext, "0"}
+				dn := []string{"sub", "inc", "d" + g.ext, "0", ".d", ".hid" + g.ext, "..."}
 				n = &c19Node{Name: dn[g.rng.Intn(len(dn))], IsDir: true, Children: g.children(depth + 1)}
+				if g.rng.Chance(g.errPct / 3) {
+					n.Bad = "unlistable"
+				}
 			}
+		}
+		if n.Name == "" { // (empty stem or look-alike with the empty extension)
+			n.Name = "e"
 		}
 		if used[n.Name] {
 			continue
@@ -157,63 +202,189 @@ func (g *c19Gen) children(depth int) []*c19Node {
 	return out
 }
 
+func c19SwapCase(s string) string {
+	b := []byte(s)
+	for i, c := range b {
+		switch {
+		case c >= 'a' && c <= 'z':
+			b[i] = c - 32
+		case c >= 'A' && c <= 'Z':
+			b[i] = c + 32
+		}
+	}
+	return string(b)
+}
+
+// extensions: the two documented ones and a short one (most file sets), and the shapes a careless
+// test for "has the extension" gets wrong: two dots, no leading dot, upper case, and the empty
+// extension (every file is a template file)
+var c19ExtsUsual = []string{goathtml.FileExtension, goattext.FileExtension, ".t"}
+var c19ExtsOdd = []string{".tpl.html", "html", "_t", ".T", ""}
+
 func c19GenFS(rng *RNG, errPct int) *c19FS {
-	exts := []string{".gohtml", ".gotext", ".t"}
-	g := &c19Gen{rng: rng, ext: exts[rng.Intn(len(exts))], errPct: errPct}
-	fs := &c19FS{Ext: g.ext}
+	g := &c19Gen{rng: rng, errPct: errPct, maxDepth: 2}
+	if rng.Chance(72) {
+		g.ext = c19ExtsUsual[rng.Intn(len(c19ExtsUsual))]
+	} else {
+		g.ext = c19ExtsOdd[rng.Intn(len(c19ExtsOdd))]
+	}
+	if rng.Chance(12) {
+		g.maxDepth = 4
+	}
+	g.funcs = rng.Chance(25)
+	fs := &c19FS{Ext: g.ext, Funcs: g.funcs}
+	top := func(name string) c19Dir {
+		d := c19Dir{Name: name, Children: g.children(0)}
+		if rng.Chance(errPct / 4) {
+			d.Bad = "unlistable"
+		}
+		return d
+	}
 	if !rng.Chance(12) {
-		fs.Helpers = &c19Dir{Name: "helpers", Children: g.children(0)}
+		h := top("helpers")
+		fs.Helpers = &h
 	}
 	for _, l := range c19LayoutDirs {
 		if rng.Chance(72) {
-			fs.Layouts = append(fs.Layouts, c19Dir{Name: l, Children: g.children(0)})
+			fs.Layouts = append(fs.Layouts, top(l))
 		}
 	}
 	for _, v := range c19ViewDirs {
 		if rng.Chance(75) {
-			fs.Views = append(fs.Views, c19Dir{Name: v, Children: g.children(0)})
+			fs.Views = append(fs.Views, top(v))
 		}
 	}
 	return fs
 }
 
-func c19Write(fs filesystem.Filespace, base string, ch []*c19Node) {
+// c19Conf is how a provider is configured: the documented defaults of the two packages
+// (goathtml/main.go, goattext/main.go). The file sets are laid out by the same patterns, so the
+// check follows the constants and asks of them only what the property needs: different names
+// give different directories, "" stands for the package's DefaultLayout.
+type c19Conf struct{ helpers, layouts, views, deflt string }
+
+func c19ConfOf(html bool) c19Conf {
+	if html {
+		return c19Conf{goathtml.HelpersPath, goathtml.LayoutPath, goathtml.ViewPath, goathtml.DefaultLayout}
+	}
+	return c19Conf{goattext.HelpersPath, goattext.LayoutPath, goattext.ViewPath, goattext.DefaultLayout}
+}
+
+func c19DirOf(pattern, name string) string {
+	return strings.TrimRight(strings.Replace(pattern, "{name}", name, 1), "/")
+}
+
+// c19Canon: the path without empty segments (WalkFS asks for "helpers//a.t")
+func c19Canon(p string) string {
+	var seg []string
+	for _, x := range strings.Split(p, "/") {
+		if x != "" {
+			seg = append(seg, x)
+		}
+	}
+	return strings.Join(seg, "/")
+}
+
+// c19FaultFS is the file set with its permanent read failures: an unreadable file, a directory
+// that can not be listed. Everything else is the memfs below.
+type c19BaseFS = filesystem.Filespace
+
+type c19FaultFS struct {
+	c19BaseFS
+	badFile map[string]bool
+	badDir  map[string]bool
+}
+
+var errC19Injected = errors.New("injected: permission denied")
+
+func (f *c19FaultFS) ReadFile(p string) ([]byte, error) {
+	if f.badFile[c19Canon(p)] {
+		return nil, errC19Injected
+	}
+	return f.c19BaseFS.ReadFile(p)
+}
+
+func (f *c19FaultFS) ReadDir(p string) ([]os.FileInfo, error) {
+	if f.badDir[c19Canon(p)] {
+		return nil, errC19Injected
+	}
+	return f.c19BaseFS.ReadDir(p)
+}
+
+func c19Write(fs filesystem.Filespace, ff *c19FaultFS, base string, ch []*c19Node) {
 	must(fs.MkdirAll(base, 0o755))
 	for _, n := range ch {
 		p := base + "/" + n.Name
 		if n.IsDir {
-			c19Write(fs, p, n.Children)
+			c19Write(fs, ff, p, n.Children)
+			if n.Bad == "unlistable" {
+				ff.badDir[c19Canon(p)] = true
+			}
 		} else {
 			must(fs.WriteFile(p, []byte(n.content()), 0o644))
+			if n.Bad == "unreadable" {
+				ff.badFile[c19Canon(p)] = true
+			}
 		}
 	}
 }
 
-func (d *c19FS) mem() filesystem.Filespace {
+// mem lays the file set out on a fresh memfs by the patterns of the provider kind.
+func (d *c19FS) mem(html bool) filesystem.Filespace {
 	fs, err := memfs.NewFilespace()
 	must(err)
+	cf := c19ConfOf(html)
+	ff := &c19FaultFS{c19BaseFS: fs, badFile: map[string]bool{}, badDir: map[string]bool{}}
+	top := func(dir string, t *c19Dir) {
+		c19Write(fs, ff, dir, t.Children)
+		if t.Bad == "unlistable" {
+			ff.badDir[c19Canon(dir)] = true
+		}
+	}
 	if d.Helpers != nil {
-		c19Write(fs, "helpers", d.Helpers.Children)
+		top(c19DirOf(cf.helpers, ""), d.Helpers)
 	}
 	// creation order of the layout/view directories themselves is irrelevant (looked up by name)
-	for _, l := range d.Layouts {
-		c19Write(fs, "layouts/"+l.Name, l.Children)
+	for i := range d.Layouts {
+		top(c19DirOf(cf.layouts, d.Layouts[i].Name), &d.Layouts[i])
 	}
-	for _, v := range d.Views {
-		c19Write(fs, "views/"+v.Name, v.Children)
+	for i := range d.Views {
+		top(c19DirOf(cf.views, d.Views[i].Name), &d.Views[i])
 	}
-	return fs
+	if len(ff.badFile)+len(ff.badDir) == 0 {
+		return fs
+	}
+	return ff
 }
 
-// files of a directory in walk order, only those with the extension (used by the reference)
+// c19Unlistable stands for a directory whose listing fails, at its position of the walk
+var c19Unlistable = &c19Node{Bad: "unlistable"}
+
+// files of a directory in walk order, only those with the extension (used by the reference); a
+// directory that can not be listed is one entry (the walk fails there)
 func c19Walk(ext string, ch []*c19Node, out *[]*c19Node) {
 	for _, n := range ch {
 		if n.IsDir {
+			if n.Bad == "unlistable" {
+				*out = append(*out, c19Unlistable)
+				continue
+			}
 			c19Walk(ext, n.Children, out)
 		} else if strings.HasSuffix(n.Name, ext) {
 			*out = append(*out, n)
 		}
 	}
+}
+
+func c19WalkTop(ext string, d *c19Dir) (files []*c19Node) {
+	if d == nil {
+		return nil
+	}
+	if d.Bad == "unlistable" {
+		return []*c19Node{c19Unlistable}
+	}
+	c19Walk(ext, d.Children, &files)
+	return files
 }
 
 func (d *c19FS) dir(list []c19Dir, name string) *c19Dir {
@@ -227,11 +398,19 @@ func (d *c19FS) dir(list []c19Dir, name string) *c19Dir {
 
 // ---- Coq rendering of a file set
 
-func c19CoqNodes(ch []*c19Node) string {
+// A directory that can not be listed is rendered for the model as a directory holding one
+// template file that fails to load: the walk that reaches it reports an error in both.
+func c19CoqUnlistable(ext string) string {
+	return "[" + fmt.Sprintf("NFile %s None", coqStr("x"+ext)) + "]"
+}
+
+func c19CoqNodes(ext string, ch []*c19Node) string {
 	items := make([]string, len(ch))
 	for i, n := range ch {
-		if n.IsDir {
-			items[i] = fmt.Sprintf("NDir %s %s", coqStr(n.Name), c19CoqNodes(n.Children))
+		if n.IsDir && n.Bad == "unlistable" {
+			items[i] = fmt.Sprintf("NDir %s %s", coqStr(n.Name), c19CoqUnlistable(ext))
+		} else if n.IsDir {
+			items[i] = fmt.Sprintf("NDir %s %s", coqStr(n.Name), c19CoqNodes(ext, n.Children))
 		} else if n.Bad != "" {
 			items[i] = fmt.Sprintf("NFile %s None", coqStr(n.Name))
 		} else {
@@ -245,10 +424,17 @@ func c19CoqNodes(ch []*c19Node) string {
 	return coqList(items)
 }
 
-func c19CoqDirs(l []c19Dir) string {
+func c19CoqTop(ext string, d *c19Dir) string {
+	if d.Bad == "unlistable" {
+		return c19CoqUnlistable(ext)
+	}
+	return c19CoqNodes(ext, d.Children)
+}
+
+func c19CoqDirs(ext string, l []c19Dir) string {
 	items := make([]string, len(l))
-	for i, d := range l {
-		items[i] = fmt.Sprintf("(%s, %s)", coqStr(d.Name), c19CoqNodes(d.Children))
+	for i := range l {
+		items[i] = fmt.Sprintf("(%s, %s)", coqStr(l[i].Name), c19CoqTop(ext, &l[i]))
 	}
 	return coqList(items)
 }
@@ -256,10 +442,10 @@ func c19CoqDirs(l []c19Dir) string {
 func (d *c19FS) coq() string {
 	h := "None"
 	if d.Helpers != nil {
-		h = "(Some " + c19CoqNodes(d.Helpers.Children) + ")"
+		h = "(Some " + c19CoqTop(d.Ext, d.Helpers) + ")"
 	}
 	return fmt.Sprintf("{| f_ext := %s; f_helpers := %s; f_layouts := %s; f_views := %s |}",
-		coqStr(d.Ext), h, c19CoqDirs(d.Layouts), c19CoqDirs(d.Views))
+		coqStr(d.Ext), h, c19CoqDirs(d.Ext, d.Layouts), c19CoqDirs(d.Ext, d.Views))
 }
 
 // ---------------------------------------------------------------- requests and observables
@@ -389,18 +575,31 @@ func (h c19T) Base() (c19Tmpl, error)            { return c19WrapT(h.p.Base()) }
 func (h c19T) Layout(l string) (c19Tmpl, error)  { return c19WrapT(h.p.Layout(l)) }
 func (h c19T) View(l, v string) (c19Tmpl, error) { return c19WrapT(h.p.View(l, v)) }
 
-func c19NewProvider(html bool, fs filesystem.Filespace, ext string, cached bool) c19Provider {
+// c19NewProvider builds a provider over the file set laid out by d.mem(html): the documented
+// default paths of its package, the extension and (for a file set with Funcs) the FuncMap.
+func c19NewProvider(html bool, fs filesystem.Filespace, d *c19FS, cached bool) c19Provider {
+	cf := c19ConfOf(html)
 	if html {
-		return c19H{ghprovider.NewProvider(fs, "helpers/", "layouts/{name}/", "views/{name}/", ext, nil, cached)}
+		var fm htemplate.FuncMap
+		if d.Funcs {
+			fm = htemplate.FuncMap{"fn": c19Fn}
+		}
+		return c19H{ghprovider.NewProvider(fs, cf.helpers, cf.layouts, cf.views, d.Ext, fm, cached)}
 	}
-	return c19T{gtprovider.NewProvider(fs, "helpers/", "layouts/{name}/", "views/{name}/", ext, nil, cached)}
+	var fm ttemplate.FuncMap
+	if d.Funcs {
+		fm = ttemplate.FuncMap{"fn": c19Fn}
+	}
+	return c19T{gtprovider.NewProvider(fs, cf.helpers, cf.layouts, cf.views, d.Ext, fm, cached)}
 }
 
+// the body as parsed, without the calls of "fn" (they render nothing; html/template rewrites them
+// to "{{fn | _html_template_htmlescaper}}" when it escapes)
 func c19TreeBody(tr *parse.Tree) (string, bool) {
 	if tr == nil || tr.Root == nil || parse.IsEmptyTree(tr.Root) {
 		return "", false
 	}
-	return tr.Root.String(), true
+	return c19FnCall.ReplaceAllString(tr.Root.String(), ""), true
 }
 
 // c19Defs reads the definitions off a template WITHOUT executing it (parsed bodies).
@@ -502,6 +701,37 @@ func c19CallRaw(p c19Provider, q c19Req) (t c19Tmpl, class string) {
 	return t, "tmpl"
 }
 
+// c19Render is what a caller does with a template it was handed, without looking inside: it
+// executes the names it knows of; a name that is not defined (or has no body) reports an error
+// and is left out.
+func c19Render(t c19Tmpl) (m map[string]string) {
+	defer func() {
+		if r := recover(); r != nil {
+			m = map[string]string{"!panic": fmt.Sprint(r)}
+		}
+	}()
+	m = map[string]string{}
+	for _, n := range c19DefPool {
+		var b bytes.Buffer
+		var err error
+		switch x := t.(type) {
+		case *htemplate.Template:
+			err = x.ExecuteTemplate(&b, n, nil)
+		case *ttemplate.Template:
+			err = x.ExecuteTemplate(&b, n, nil)
+		}
+		if err == nil {
+			m[n] = b.String()
+		}
+	}
+	return m
+}
+
+// c19Hangs counts the sequences that did not return. Each costs its whole timeout, so the run
+// reports the first few and stops generating (a provider that blocks is reported, the harness
+// does not run into its own time limit).
+var c19Hangs int
+
 type c19SeqResult struct {
 	Obs     []c19Obs
 	AbsFail string // rendered text differs from the parsed body somewhere
@@ -512,7 +742,7 @@ func c19RunSeq(html, cached bool, d *c19FS, reqs []c19Req) c19SeqResult {
 	done := make(chan c19SeqResult, 1)
 	go func() {
 		var res c19SeqResult
-		p := c19NewProvider(html, d.mem(), d.Ext, cached)
+		p := c19NewProvider(html, d.mem(html), d, cached)
 		tm := make([]c19Tmpl, 0, len(reqs))
 		checkExec := func(t c19Tmpl, where string) (o c19Obs) {
 			defer func() {
@@ -558,7 +788,7 @@ func c19RunSeq(html, cached bool, d *c19FS, reqs []c19Req) c19SeqResult {
 	select {
 	case r := <-done:
 		return r
-	case <-time.After(20 * time.Second):
+	case <-time.After(15 * time.Second):
 		obs := make([]c19Obs, len(reqs))
 		for i := range obs {
 			obs[i] = c19Obs{Kind: "hang"}
@@ -591,12 +821,10 @@ func (r c19RefX) clone() (c19RefT, error) {
 func (r c19RefX) tmpl() c19Tmpl { return r.t }
 
 func c19RefLoad(t c19RefT, ext string, dir *c19Dir) error {
-	if dir == nil {
-		return nil
-	}
-	var files []*c19Node
-	c19Walk(ext, dir.Children, &files)
-	for _, f := range files {
+	for _, f := range c19WalkTop(ext, dir) {
+		if f.Bad == "unreadable" || f.Bad == "unlistable" {
+			return errC19Injected
+		}
 		s := f.content()
 		if s == "" {
 			return fmt.Errorf("empty file")
@@ -612,9 +840,17 @@ func c19RefLoad(t c19RefT, ext string, dir *c19Dir) error {
 func c19Ref(html bool, d *c19FS, q c19Req) c19Obs {
 	var t c19RefT
 	if html {
-		t = c19RefH{htemplate.New(c19Root)}
+		r := htemplate.New(c19Root)
+		if d.Funcs {
+			r.Funcs(htemplate.FuncMap{"fn": c19Fn})
+		}
+		t = c19RefH{r}
 	} else {
-		t = c19RefX{ttemplate.New(c19Root)}
+		r := ttemplate.New(c19Root)
+		if d.Funcs {
+			r.Funcs(ttemplate.FuncMap{"fn": c19Fn})
+		}
+		t = c19RefX{r}
 	}
 	errObs := c19Obs{Kind: "err"}
 	if err := c19RefLoad(t, d.Ext, d.Helpers); err != nil {
@@ -623,7 +859,7 @@ func c19Ref(html bool, d *c19FS, q c19Req) c19Obs {
 	if q.Op != "base" {
 		l := q.L
 		if l == "" {
-			l = "default"
+			l = c19ConfOf(html).deflt // "" stands for the package's default layout
 		}
 		if q.Op == "view" && q.V == "" {
 			return errObs
@@ -651,12 +887,7 @@ func c19Ref(html bool, d *c19FS, q c19Req) c19Obs {
 func (d *c19FS) onlyIn() map[string]map[string]bool {
 	where := map[string]map[string]bool{}
 	add := func(tag string, dir *c19Dir) {
-		if dir == nil {
-			return
-		}
-		var files []*c19Node
-		c19Walk(d.Ext, dir.Children, &files)
-		for _, f := range files {
+		for _, f := range c19WalkTop(d.Ext, dir) {
 			for _, df := range f.Defs {
 				if where[df.Name] == nil {
 					where[df.Name] = map[string]bool{}
@@ -715,7 +946,15 @@ func c19GenReq(rng *RNG, n int) c19Req {
 func c19GenSeq(rng *RNG) []c19Req {
 	l := c19ReqLayouts[rng.Intn(len(c19ReqLayouts))]
 	v := c19ReqViews[rng.Intn(len(c19ReqViews))]
-	switch rng.Intn(11) {
+	switch rng.Intn(14) {
+	case 7: // a result of the SECOND (answered from the cache) request is rendered, then a view is built on that layout
+		v2 := c19ReqViews[rng.Intn(len(c19ReqViews))]
+		return []c19Req{{Op: "layout", L: l}, {Op: "layout", L: l}, {Op: "exec", R: 1}, {Op: "view", L: l, V: v}, {Op: "view", L: l, V: v2}, {Op: "layout", L: l}}
+	case 8: // the same for the base: second answer rendered, then a layout and a view on top of it
+		return []c19Req{{Op: "base"}, {Op: "base"}, {Op: "exec", R: 1}, {Op: "layout", L: l}, {Op: "view", L: l, V: v}, {Op: "base"}}
+	case 9: // a view answered from the cache is rendered; its layout, another view of it and the base follow
+		v2 := c19ReqViews[rng.Intn(len(c19ReqViews))]
+		return []c19Req{{Op: "view", L: l, V: v}, {Op: "view", L: l, V: v}, {Op: "exec", R: 1}, {Op: "layout", L: l}, {Op: "exec", R: 3}, {Op: "view", L: l, V: v2}, {Op: "base"}}
 	case 5: // the same view three times (the answers must agree, errors included), then its layout twice
 		return []c19Req{{Op: "view", L: l, V: v}, {Op: "view", L: l, V: v}, {Op: "view", L: l, V: v}, {Op: "layout", L: l}, {Op: "layout", L: l}}
 	case 6:
@@ -804,7 +1043,10 @@ func c19EvalSeq(o *Out, d *c19FS, html bool, reqs []c19Req, only map[string]map[
 			case "nil":
 				o.Fail("no_nil_template", fmt.Sprintf("%s %s provider: request %d %+v returned (nil, nil): a nil template without an error", mode, c19KindName(html), i, q), "nil", desc(mode))
 			case "hang":
-				o.Fail("no_hang", fmt.Sprintf("%s %s provider: sequence did not return", mode, c19KindName(html)), "hang", desc(mode))
+				if i == 0 {
+					c19Hangs++
+					o.Fail("no_hang", fmt.Sprintf("%s %s provider: sequence did not return", mode, c19KindName(html)), "hang", desc(mode))
+				}
 			}
 			if q.Op == "exec" {
 				if q.R < i && ref[q.R].Kind == "tmpl" {
@@ -873,18 +1115,38 @@ func (d *c19FS) stats(o *Out) {
 		o.Stat("fs_some_view_missing")
 	}
 	nested, bad, nonext, dup := false, false, false, false
+	o.Stat("fs_ext_" + d.Ext)
+	if d.Funcs {
+		o.Stat("fs_funcs")
+	}
+	deep, unreadable, unlistable, hidden, fncall, big := false, false, false, false, false, false
+	for _, t := range append(append([]c19Dir{}, d.Layouts...), d.Views...) {
+		unlistable = unlistable || t.Bad != ""
+	}
+	if d.Helpers != nil && d.Helpers.Bad != "" {
+		unlistable = true
+	}
 	var rec func(ch []*c19Node, depth int)
 	rec = func(ch []*c19Node, depth int) {
 		for _, n := range ch {
 			if n.IsDir {
+				unlistable = unlistable || n.Bad != ""
+				hidden = hidden || strings.HasPrefix(n.Name, ".")
 				rec(n.Children, depth+1)
 				continue
 			}
 			if depth > 0 {
 				nested = true
 			}
-			if n.Bad != "" {
+			deep = deep || depth > 2
+			big = big || n.Pad > 0
+			if n.Bad == "unreadable" {
+				unreadable = true
+			} else if n.Bad != "" {
 				bad = true
+			}
+			for _, df := range n.Defs {
+				fncall = fncall || df.Fn
 			}
 			if !strings.HasSuffix(n.Name, d.Ext) {
 				nonext = true
@@ -919,6 +1181,12 @@ func (d *c19FS) stats(o *Out) {
 	if dup {
 		o.Stat("fs_duplicate_in_file")
 	}
+	for k, v := range map[string]bool{"fs_depth_3plus": deep, "fs_unreadable_file": unreadable, "fs_unlistable_dir": unlistable,
+		"fs_hidden_dir": hidden, "fs_body_calls_func": fncall, "fs_large_file": big} {
+		if v {
+			o.Stat(k)
+		}
+	}
 }
 
 // ---------------------------------------------------------------- main runner
@@ -928,12 +1196,18 @@ func runC19(o *Out, rng *RNG, tier string, replay string) {
 	o.CaseType = "case"
 	o.CheckFn = "check"
 	o.ShardSize = 60
-	o.Rule = "file sets on a memfs: helpers/, layouts/{default,main,alt,a,a:b}/, views/{v,w,u,c,b:c}/ with 0-3 entries per directory (files with and " +
-		"without the extension, nested directories up to depth 2, definition names from a pool of 8 so that layers overlap, a missing " +
-		"directory with probability 12-28%, empty/malformed/duplicate-definition files (1% of files, 12% in every third file set), every body a unique marker); per file set 5 request sequences (the same request repeated 2-3 times, also after an error) " +
-		"(<= 5 requests over Base/Layout/View/Execute of an earlier result; layout/view names include \"\", missing ones) x {html,text} " +
-		"x {uncached,cached}; plus concurrent first use (child process, 16 goroutines per round). Non-trivial: some answer is a template " +
-		"with at least one definition; distinct by file set."
+	o.Rule = "file sets laid out on a memfs by the packages' default path patterns (goathtml/goattext HelpersPath, LayoutPath, ViewPath): " +
+		"helpers, layouts {default,main,alt,a,a:b}, views {v,w,u,c,b:c} with 0-3 entries per directory (files with and without the " +
+		"extension and look-alikes of it: in the middle, without its first character, other case, one character more; nested directories " +
+		"up to depth 2, in 12% of the sets up to 4, hidden ones included; definition names from a pool of 8 so that layers overlap; a missing " +
+		"directory with probability 12-28%); extension from {.gohtml,.gotext,.t} (72%) or {.tpl.html, html, _t, .T, \"\"}; 25% of the sets " +
+		"with a FuncMap whose function the bodies call; 1% large files (70 kB); empty/malformed/duplicate-definition/unreadable files and " +
+		"directories that can not be listed (1% of files, 12% in every third file set); every body a unique marker; per file set 5 request " +
+		"sequences (<= 7 requests over Base/Layout/View/Execute of an earlier result; the same request repeated 2-3 times, also after an " +
+		"error; an answer from the cache rendered before a dependent template is built; layout/view names include \"\", missing ones) " +
+		"x {html,text} x {uncached,cached}; plus all pairs of 23 x 19 look-alike layout/view names, twice; plus concurrent first use " +
+		"(child process, 16 goroutines per round, 30% of the answers rendered on the spot). Non-trivial: some answer is a template with at " +
+		"least one definition; distinct by file set."
 
 	if replay != "" {
 		c19Replay(o, replay)
@@ -946,7 +1220,7 @@ func runC19(o *Out, rng *RNG, tier string, replay string) {
 		nSets, rounds = 10000, 3000
 		coqSets = 6000
 	}
-	for s := 0; s < nSets; s++ {
+	for s := 0; s < nSets && c19Hangs < 3; s++ {
 		errPct := 1
 		if s%3 == 2 {
 			errPct = 12 // the malformed stream: empty files, broken syntax, duplicate definitions
@@ -964,6 +1238,9 @@ func runC19(o *Out, rng *RNG, tier string, replay string) {
 			reqs := c19GenSeq(rng)
 			seqs = append(seqs, reqs)
 			for _, html := range []bool{true, false} {
+				if c19Hangs >= 3 {
+					break
+				}
 				r, sd := c19EvalSeq(o, d, html, reqs, only)
 				runs = append(runs, r...)
 				saw = saw || sd
@@ -980,10 +1257,16 @@ func runC19(o *Out, rng *RNG, tier string, replay string) {
 	o.Extra["file_sets"] = nSets
 	o.Extra["file_sets_evaluated_in_coq"] = coqSets
 	o.Extra["runs_per_file_set"] = nSeq * 4
+	if c19Hangs > 0 {
+		return // reported; the remaining stages would only wait for the same provider again
+	}
 
 	// the key collision of the views cache repaired in 7035bfe (C19_keycollision_refuted is the
 	// machine-checked witness for the old key), deterministically
 	c19KeyCollision(o)
+
+	// look-alike layout and view names, all pairs
+	c19NameProbe(o, rng)
 
 	// concurrent first use in a child process (a Go "concurrent map read and map write" is fatal)
 	c19Concurrent(o, rng.Next()%1000000, rounds)
@@ -992,8 +1275,8 @@ func runC19(o *Out, rng *RNG, tier string, replay string) {
 // the pair of requests whose old cache keys (layout + ":" + view) coincide, on a fixed file set
 func c19KeyCollision(o *Out) {
 	d := &c19FS{Ext: ".t", Views: []c19Dir{
-		{Name: "c", Children: []*c19Node{{Name: "f.t", Defs: []c19Def{{"a", 1}}}}},
-		{Name: "b:c", Children: []*c19Node{{Name: "f.t", Defs: []c19Def{{"a", 2}}}}},
+		{Name: "c", Children: []*c19Node{{Name: "f.t", Defs: []c19Def{{Name: "a", ID: 1}}}}},
+		{Name: "b:c", Children: []*c19Node{{Name: "f.t", Defs: []c19Def{{Name: "a", ID: 2}}}}},
 	}}
 	reqs := []c19Req{{Op: "view", L: "a:b", V: "c"}, {Op: "view", L: "a", V: "b:c"}}
 	var runs []string
@@ -1003,6 +1286,82 @@ func c19KeyCollision(o *Out) {
 	}
 	t := d.coq()
 	o.AddCase(fmt.Sprintf("CSet %s %s", t, coqList(runs)), map[string]interface{}{"op": "set", "fs": d, "seqs": [][]c19Req{reqs}}, "keycollision:"+t, true)
+}
+
+// Names that a careless cache key or path construction folds onto one another: other case,
+// blanks and dots at either end, ':' at every position, digits and a ten-byte name (a key made of
+// the length and the names without separators), the pattern's own placeholder, a NUL, bytes that
+// are not UTF-8. All are single path segments.
+var c19ProbeLayouts = []string{"a", "A", "a ", " a", "a.", ".a", "a:b", "a:", ":", "0", "1", "10", ":aaaaaaaaa",
+	"default", "Default", "default ", "{name}", "a\x00b", "\xc3\xa4", "\xff\xfe", "a\tb"}
+var c19ProbeViews = []string{"c", "C", "c ", " c", "c.", ".c", "b:c", ":c", "aaaaaaaaa:c", ":aaaaaaaaac", "0",
+	"{name}", "a", "default", "c\x00", "\xc3\xa9", "\xfe"}
+
+func init() {
+	// two long names that differ in their last byte only
+	long := strings.Repeat("n", 300)
+	c19ProbeLayouts = append(c19ProbeLayouts, long+"1", long+"2")
+	c19ProbeViews = append(c19ProbeViews, long+"1", long+"2")
+}
+
+// c19NameProbe: every layout and every view has its own directory with definitions of its own
+// (and one name, "x", that every layer overrides). Every (layout, view) pair is requested, then
+// every layout, then every pair again in another order; two different pairs that a provider
+// confuses (in a cache key, in a path) answer with the other one's definitions.
+func c19NameProbe(o *Out, rng *RNG) {
+	id := 0
+	file := func(tag string) []*c19Node {
+		id += 2
+		return []*c19Node{{Name: "f.t", Defs: []c19Def{{Name: "x", ID: id - 1}, {Name: tag, ID: id}}}}
+	}
+	d := &c19FS{Ext: ".t", Helpers: &c19Dir{Name: "helpers", Children: file("H")}}
+	for _, l := range c19ProbeLayouts {
+		d.Layouts = append(d.Layouts, c19Dir{Name: l, Children: file("L")})
+	}
+	for _, v := range c19ProbeViews {
+		d.Views = append(d.Views, c19Dir{Name: v, Children: file("V")})
+	}
+	var pairs []c19Req
+	for _, l := range append([]string{""}, c19ProbeLayouts...) {
+		for _, v := range c19ProbeViews {
+			pairs = append(pairs, c19Req{Op: "view", L: l, V: v})
+		}
+	}
+	shuffled := func() []c19Req {
+		out := append([]c19Req{}, pairs...)
+		for i := len(out) - 1; i > 0; i-- {
+			j := rng.Intn(i + 1)
+			out[i], out[j] = out[j], out[i]
+		}
+		return out
+	}
+	reqs := shuffled()
+	for _, l := range c19ProbeLayouts {
+		reqs = append(reqs, c19Req{Op: "layout", L: l})
+	}
+	reqs = append(reqs, shuffled()...)
+	only := d.onlyIn()
+	t := d.coq()
+	// the oracles on the whole sequence first (one provider answers all of it); then the sequence in
+	// pieces, each on providers of its own, for the comparison with the model
+	for _, html := range []bool{true, false} {
+		c19EvalSeq(o, d, html, reqs, only)
+	}
+	const piece = 60
+	for at := 0; at < len(reqs); at += piece {
+		end := at + piece
+		if end > len(reqs) {
+			end = len(reqs)
+		}
+		var runs []string
+		for _, html := range []bool{true, false} {
+			r, _ := c19EvalSeq(o, d, html, reqs[at:end], only)
+			runs = append(runs, r...)
+		}
+		o.AddCase(fmt.Sprintf("CSet %s %s", t, coqList(runs)), map[string]interface{}{"op": "set", "fs": d, "seqs": [][]c19Req{reqs[at:end]}},
+			fmt.Sprintf("names:%d", at), true)
+	}
+	o.Extra["name_probe_requests"] = len(reqs)
 }
 
 type c19ChildReport struct {
@@ -1088,8 +1447,8 @@ func runC19Child(o *Out, rng *RNG, tier string, replay string) {
 		d := c19GenFS(rng, 1)
 		html := r%2 == 0
 		cached := r%6 != 5
-		mfs := d.mem()
-		p := c19NewProvider(html, mfs, d.Ext, cached)
+		mfs := d.mem(html)
+		p := c19NewProvider(html, mfs, d, cached)
 		// every goroutine asks for many keys in its own order: early calls miss and build (cache
 		// writes), later ones hit the fast path (cache reads) while other goroutines still build
 		per := 8 + rng.Intn(24)
@@ -1112,19 +1471,25 @@ func runC19Child(o *Out, rng *RNG, tier string, replay string) {
 		storm := []c19Req{{Op: "layout", L: n1}, {Op: "layout", L: n2}, {Op: "layout", L: n1}, {Op: "base"},
 			{Op: "layout", L: n2}, {Op: "layout", L: n1}, {Op: "view", L: n1, V: v1}, {Op: "view", L: n2, V: v2}}
 		reqs := make([][]c19Req, G)
+		// render[g][k]: the goroutine executes what request k gave it before it goes on (callers
+		// render while other callers still make their first requests)
+		render := make([][]bool, G)
 		for g := range reqs {
 			reqs[g] = append(reqs[g], storm[g%len(storm)])
+			render[g] = append(render[g], rng.Chance(30))
 			for k := 0; k < per; k++ {
 				q := c19GenReq(rng, 0)
 				if q.Op == "view" && q.V == "" {
 					q.V = "v"
 				}
 				reqs[g] = append(reqs[g], q)
+				render[g] = append(render[g], rng.Chance(30))
 			}
 		}
 		type c19Got struct {
 			t     c19Tmpl
 			class string
+			rend  map[string]string
 		}
 		got := make([][]c19Got, G)
 		start := make(chan struct{})
@@ -1133,9 +1498,13 @@ func runC19Child(o *Out, rng *RNG, tier string, replay string) {
 			go func(g int) {
 				res := make([]c19Got, 0, len(reqs[g]))
 				<-start
-				for _, q := range reqs[g] {
+				for k, q := range reqs[g] {
 					t, class := c19CallRaw(p, q)
-					res = append(res, c19Got{t, class})
+					var rend map[string]string
+					if class == "tmpl" && render[g][k] {
+						rend = c19Render(t)
+					}
+					res = append(res, c19Got{t, class, rend})
 				}
 				got[g] = res
 				fin <- g
@@ -1187,6 +1556,23 @@ func runC19Child(o *Out, rng *RNG, tier string, replay string) {
 				} else if !ob.equal(rf) && len(rep.Failures) < 20 {
 					rep.Failures = append(rep.Failures, Failure{Oracle: "concurrent_equal", What: fmt.Sprintf("goroutine %d request %+v got %s %v; a single caller gets %s %v",
 						g, q, ob.Kind, ob.Map, rf.Kind, rf.Map), Sig: "concurrent", Case: desc})
+				} else if rend := got[g][k].rend; rend != nil && rf.Kind == "tmpl" && len(rep.Failures) < 20 {
+					// what the goroutine rendered on the spot = what a single caller renders
+					rep.Stats["rendered_in_goroutine"]++
+					// (a name without a body may render as nothing or report an error: left open)
+					same := true
+					for n, v := range rf.Map {
+						same = same && rend[n] == v
+					}
+					for n, v := range rend {
+						if _, defined := rf.Map[n]; !defined && strings.TrimSpace(v) != "" {
+							same = false
+						}
+					}
+					if !same {
+						rep.Failures = append(rep.Failures, Failure{Oracle: "concurrent_equal", What: fmt.Sprintf("goroutine %d request %+v: the template rendered %v right after the call; a single caller renders %v",
+							g, q, rend, rf.Map), Sig: "concurrent", Case: desc})
+					}
 				}
 				flatQ = append(flatQ, q.ccoq())
 				t, good := ob.coq()
